@@ -26,6 +26,9 @@ def report_check(program, built, solver, prims, leaves, job):
         if any(not s for s in view.sched.values()):
             continue  # (unscheduled accessors: known finding territory of C06, the walk is not defined by the report)
         sol = analysis.solve_under_pins(solver, prims, leaf)
+        if isinstance(sol, analysis.Raised):
+            out.append(analysis.raised_violation(program, leaf, sol))
+            continue
         if not sol:
             out.append(({"dir": "report", "what": "admitted-leaf-not-returned"},
                         {"program": program, "leaf": analysis._leaf_list(leaf), "expect": "accept", "solver": {}}))
